@@ -27,7 +27,14 @@ pub fn def() -> CheckDef {
 }
 
 pub fn flags() -> Flags {
-    Flags { property: "C08", dump_each: true, final_check: true, ..Default::default() }
+    Flags {
+        property: "C08",
+        dump_each: true,
+        final_check: true,
+        // content of streams only: error kinds, reopen failures etc. are other properties' business
+        scope: &["model.read-", "model.bytes", "model.len", "dump.differs", "reopen.permissive-differs", "reopen.strict-differs"],
+        ..Default::default()
+    }
 }
 
 pub fn gen(seed: u64, idx: u64, _tier: Tier) -> Case {
